@@ -20,6 +20,7 @@ import (
 
 	"github.com/richardwilkes/toolbox/errs"
 	"github.com/richardwilkes/toolbox/xio"
+	"github.com/richardwilkes/toolbox/xio/fs/internal"
 )
 
 // ExtractArchive extracts the contents of a zip archive at 'src' into the 'dst' directory.
@@ -56,6 +57,9 @@ func ExtractWithMask(zr *zip.Reader, dst string, mask os.FileMode) error {
 		}
 		fi := f.FileInfo()
 		mode := fi.Mode()
+		if err = internal.Confine(root, path, mode&os.ModeSymlink == 0 && !fi.IsDir()); err != nil {
+			return err
+		}
 		switch {
 		case mode&os.ModeSymlink != 0:
 			if err = extractSymLink(f, path, mask); err != nil {
